@@ -25,7 +25,8 @@ import (
 
 func main() {
 	if len(os.Args) >= 4 && os.Args[1] == "-panicchild" {
-		panicChild(os.Args[2], os.Args[3])
+		early := len(os.Args) >= 5 && os.Args[4] == "early"
+		panicChild(os.Args[2], os.Args[3], early)
 		return
 	}
 	if len(os.Args) >= 4 && os.Args[1] == "-sigchild" {
@@ -39,7 +40,7 @@ func main() {
 // report whose parameters are empty lists makes handleSequence index out of range). The recover
 // arm calls Close and re-panics, which kills this process; every write is mirrored to stdout as a
 // hex line so the parent can judge what reached the terminal.
-func panicChild(maskStr, dm string) {
+func panicChild(maskStr, dm string, early bool) {
 	var mask uint32
 	fmt.Sscanf(maskStr, "%d", &mask)
 	caps := fakeconsole.FromMask(mask)
@@ -66,11 +67,13 @@ func panicChild(maskStr, dm string) {
 	fmt.Fprintf(out, "E env %s %d %d %s %s\n", env, kf, ucs, hx.Hex(app), origVals(caps))
 	out.Flush()
 	mu.Unlock()
-	vx.SetAppID("panicapp")
-	vx.Window().SetCell(1, 1, vaxis.Cell{Character: vaxis.Character{Grapheme: "x"}, Style: vaxis.Style{Attribute: vaxis.AttrBold, Hyperlink: "http://x"}})
-	vx.ShowCursor(2, 2, vaxis.CursorBeam)
-	vx.SetMouseShape(vaxis.MouseShapeClickable)
-	vx.Render()
+	if !early { // round 4: `early` = the panic comes right after start-up, before the application has drawn anything
+		vx.SetAppID("panicapp")
+		vx.Window().SetCell(1, 1, vaxis.Cell{Character: vaxis.Character{Grapheme: "x"}, Style: vaxis.Style{Attribute: vaxis.AttrBold, Hyperlink: "http://x"}})
+		vx.ShowCursor(2, 2, vaxis.CursorBeam)
+		vx.SetMouseShape(vaxis.MouseShapeClickable)
+		vx.Render()
+	}
 	mu.Lock()
 	fmt.Fprintf(out, "P\n") // everything after this line is written by the panic path
 	out.Flush()
@@ -717,11 +720,18 @@ func session(r *hx.Run, rng *gen.Rng, id string, sub uint32, disableMouse bool, 
 }
 
 // panicSession: the library's own input goroutine panics (child process, see panicChild).
-func panicSession(r *hx.Run, id string, mask uint32, dm bool) error {
+func panicSession(r *hx.Run, id string, mask uint32, dm bool, early bool) error {
+	cur := "1 1 2 2 6"
+	variant := "late"
+	if early {
+		cur = "0 0 0 0 2" // nothing requested, nothing rendered; New sets cursorNext.style = CursorBlock
+		variant = "early"
+		r.Count("panic-before-first-frame")
+	}
 	var stdout bytes.Buffer
 	code := 0
 	for try := 0; try < 6; try++ {
-		cmd := exec.Command(os.Args[0], "-panicchild", fmt.Sprint(mask), map[bool]string{true: "1", false: "0"}[dm])
+		cmd := exec.Command(os.Args[0], "-panicchild", fmt.Sprint(mask), map[bool]string{true: "1", false: "0"}[dm], variant)
 		stdout.Reset()
 		cmd.Stdout = &stdout
 		err := cmd.Run()
@@ -775,11 +785,11 @@ func panicSession(r *hx.Run, id string, mask uint32, dm bool) error {
 	}
 	r.Emit("bytes0", j(before)) // start-up + SetAppID + a frame, in one piece: only fed to the mode terminal
 	if code == 4 || !seenP {
-		r.Emit("closeby panic 1 1 2 2 6", "nopanic")
+		r.Emit("closeby panic "+cur, "nopanic")
 		r.Count("panic-not-provoked")
 		return nil
 	}
-	r.Emit("closeby panic 1 1 2 2 6", j(after))
+	r.Emit("closeby panic "+cur, j(after))
 	r.Count("panic-sessions")
 	return nil
 }
@@ -813,8 +823,13 @@ func run(r *hx.Run) error {
 	// input-goroutine panic: a handful of configurations (each costs a process)
 	panics := []uint32{0, 1<<4 | 1<<1, 1<<0 | 1<<2 | 1<<3 | 1<<14 | 1<<11, 1<<4 | 1<<0 | 1<<2 | 1<<15 | 1<<3 | 1<<14 | 1<<11 | 1<<1}
 	for i, m := range panics {
-		if err := panicSession(r, fmt.Sprintf("panic-%d", i), m, i%2 == 1); err != nil {
+		if err := panicSession(r, fmt.Sprintf("panic-%d", i), m, i%2 == 1, false); err != nil {
 			return err
+		}
+		if i%2 == 1 { // round 4: the same panic right after start-up (two capability sets)
+			if err := panicSession(r, fmt.Sprintf("panic-early-%d", i), m, i%2 == 1, true); err != nil {
+				return err
+			}
 		}
 	}
 	// a real SIGTERM delivered through os/signal to a Vaxis with its handlers installed (a process each):
